@@ -141,6 +141,16 @@ pub fn c02(h: &History, s: &Synth) -> Vec<Finding> {
 				if !busy && s.filter_delay_us == 0 && lat > 1_000_000_000 {
 					out.push(f("C02/urgent-late", format!("urgent event #{} delivered {:.1} ms after it was sent", e.id, lat as f64 / 1e6), true));
 				}
+				// an urgent event is not debounced, whether or not a batch is pending: with a long window it must
+				// arrive well inside it (half the window is a generous bound; confirmed by repetition)
+				let theta = s.throttle_ms * 1_000_000;
+				if !busy && s.filter_delay_us == 0 && s.throttle_ms >= 200 && s.throttle_changes.is_empty() && lat > theta / 2 {
+					out.push(f(
+						"C02/urgent-debounced",
+						format!("urgent event #{} was delivered {:.1} ms after it was sent: it waited for the {} ms window", e.id, lat as f64 / 1e6, s.throttle_ms),
+						true,
+					));
+				}
 			}
 		}
 	}
